@@ -175,6 +175,34 @@ CHECKS_K1 = {
                 "length <= 4 over hot and cold sources against a reference model, plus re-entrant ref_count cases) - bounded.",
         "technique": "function/closure contracts with re-entrancy havoc at call-outs, symbolic execution of the real code, SMT",
     },
+    "C32": {
+        "text": "Rely/guarantee contracts with a ghost OWNER TOKEN on the real ScheduledObserver / ObserveOnObserver / observe_on_. Two "
+                "roles: the producer (appends a thunk, then ensure_active) and the runner (a scheduled `run`). The token exists iff "
+                "is_acquired and not has_faulted; it is minted by the critical section of ensure_active that flips is_acquired, travels "
+                "with every scheduler.schedule(self.run) and is given up by the critical section of run that clears is_acquired. Every "
+                "method is executed as one thread of its role against an arbitrary environment of the other role (fields havocked "
+                "under that role's guarantee whenever the lock is not held). ensure_active decides under the lock, keeps the "
+                "producer's guarantee (queue and fault flag untouched, is_acquired only rises), schedules self.run - exactly once, "
+                "outside the lock, keeping the handle for cancellation - iff that section minted the token, and leaves 'not faulted "
+                "and queue non-empty implies acquired' (no lost wake-up: no received notification is ever left without an owner, so "
+                "none stays undelivered while the scheduler is idle). run, entered with the token: its critical section either takes "
+                "exactly the HEAD of the queue or - only when the queue is empty in that very section - gives the token up and returns "
+                "without delivering or scheduling; the thunk taken is invoked exactly once, outside the lock, by the token holder "
+                "(exactly once, in the order received, never two deliveries at once); on return it schedules self.run exactly once "
+                "keeping the token; when the delivery raises, the queue is emptied and the fault latched in one critical section, "
+                "nothing is scheduled and the same exception propagates (nothing further is delivered). The *_core methods append "
+                "exactly one thunk at the tail which makes exactly that one downstream call; ObserveOnObserver's cores are the "
+                "inherited core followed by ensure_active; observe_on_ subscribes the source once with an ObserveOnObserver over "
+                "(target scheduler, subscriber); dispose stops the observer and cancels the pending run.",
+        "note": "Trusted: rxvc; z3; the RLock contract; A-gil (list.append and an attribute store are atomic - the producer appends "
+                "without the lock); A-serial for the producer side (one on_* call at a time: the notification grammar of the source); "
+                "the target scheduler is opaque: that it runs each scheduled run exactly once and - for the 'never two at once' clause "
+                "with multi-threaded schedulers - that the next run is only scheduled after the previous delivery returned (proved "
+                "here) is all that is needed. ReplaySubject's use of ScheduledObserver is covered by these contracts; its replay "
+                "semantics are C22 (not claimed). Replay and thorough cross-check: obsrun.py (real threads made cooperative, all "
+                "line-level interleavings with <= 2 preemptions over 5 scenarios) - bounded.",
+        "technique": "rely/guarantee reasoning with a ghost ownership token over the real methods (environment havoc under the other role's guarantee), SMT",
+    },
     "C30": {
         "text": "Function contracts with a loop invariant on the real Trampoline, TrampolineScheduler and CurrentThreadScheduler. "
                 "Trampoline.run(item): when idle it enqueues exactly the item, marks the trampoline busy, enters the run loop with the "
